@@ -206,8 +206,8 @@ pub fn kinds() -> Vec<Kind> {
         default_text: Some(format!("\\mathcode{idx}=777 ")),
         edge: true,
     };
-    // character 0 (first of the low table) and U+10FFFE (the largest texcraft accepts)
-    v.push(Kind { name: "mathcode", class: Class::Variable, setup: String::new(), targets: vec![mathcode("mathcode 0", "0"), mathcode("mathcode 1114110", "1114110")], nvals: NV });
+    // character 0 (first of the low table) and U+10FFFF (the last one)
+    v.push(Kind { name: "mathcode", class: Class::Variable, setup: String::new(), targets: vec![mathcode("mathcode 0", "0"), mathcode("mathcode 1114111", "1114111")], nvals: NV });
     v.push(Kind {
         name: "endlinechar",
         class: Class::Variable,
@@ -278,11 +278,11 @@ pub fn kinds() -> Vec<Kind> {
         edge: false,
     };
     v.push(Kind { name: "toksdef", class: Class::ControlSequence, setup: tokss, targets: vec![tdef("\\td", "\\td"), tdef("\\te", "\\te")], nvals: NV });
-    // \chardef values: letters, a 3-byte character (8364 = €) and U+10FFFE
+    // \chardef values: letters, a 3-byte character (8364 = €) and U+10FFFF
     fn chr(i: usize) -> u32 {
         match i {
             3 => 8364,
-            4 => 1114110,
+            4 => 1114111,
             _ => 65 + i as u32,
         }
     }
